@@ -439,6 +439,8 @@ class Engine:
         """constrain the accessor functions of a fresh element term to the leaves of v"""
         if type(v) is Lazy:
             v = v.force(self)
+        if isinstance(v, Ref) and isinstance(v.cell, SeqElemCell):
+            v = SeqPtr(v.cell.seq, v.cell.idx)
         if isinstance(v, z3.ExprRef):
             self.add_constraint(backing.leaf(self, v.sort()) == v)
         elif isinstance(v, bool):
@@ -676,7 +678,7 @@ class Engine:
         for p in projs:
             k = p[0]
             if k == 'field':
-                sub = cell.sub(self, p)
+                sub = cell.sub(self, p, variant)
                 if sub is not None:
                     cell = sub
                     variant = None
@@ -1533,7 +1535,7 @@ class SliceCell:
         return self.s
     def set(self, eng, v):
         raise Unsupported('assignment to a whole slice')
-    def sub(self, eng, proj):
+    def sub(self, eng, proj, variant=None):
         return None
 
 # --------------------------------------------------------------------------------------------
